@@ -89,6 +89,9 @@ impl<'a, 'tcx> Cx<'a, 'tcx> {
         let mut o = format!("{{\"k\":\"const\",\"ty\":{}", esc(&ty.to_string()));
         if let ty::FnDef(fd, args) = ty.kind() {
             let _ = write!(o, ",\"fn\":{}", esc(&self.tcx.def_path_str(*fd)));
+            if let Ok(Some(i)) = Instance::try_resolve(self.tcx, self.env, *fd, args) {
+                let _ = write!(o, ",\"fn_resolved\":{}", esc(&self.tcx.def_path_str(i.def_id())));
+            }
         } else if let Some(si) = c.const_.try_eval_scalar_int(self.tcx, self.env) {
             let bits = si.to_bits_unchecked();
             let sz = si.size().bytes();
